@@ -167,6 +167,7 @@ type Device struct {
 	bits     [2]map[uint16]bool   // coils, discrete overrides
 	// ASCII mode: a fraction of registers hold printable characters / NULs
 	ASCIIEvery int
+	ReadOnly   bool // validate and echo writes but do not store them
 }
 
 func NewDevice(seed uint64) *Device {
@@ -196,7 +197,11 @@ func (d *Device) Reg(tab int, a uint16) uint16 {
 	return uint16(h)
 }
 
-func (d *Device) SetReg(tab int, a uint16, v uint16) { d.regs[tab-TabHolding][a] = v }
+func (d *Device) SetReg(tab int, a uint16, v uint16) {
+	if !d.ReadOnly {
+		d.regs[tab-TabHolding][a] = v
+	}
+}
 
 func (d *Device) Bit(tab int, a uint16) bool {
 	if v, ok := d.bits[tab][a]; ok {
@@ -205,7 +210,11 @@ func (d *Device) Bit(tab int, a uint16) bool {
 	return Mix(d.Seed, uint64(tab), uint64(a))&1 == 1
 }
 
-func (d *Device) SetBit(tab int, a uint16, v bool) { d.bits[tab][a] = v }
+func (d *Device) SetBit(tab int, a uint16, v bool) {
+	if !d.ReadOnly {
+		d.bits[tab][a] = v
+	}
+}
 
 func exc(fc, code byte) []byte { return []byte{fc | 0x80, code} }
 
